@@ -83,8 +83,16 @@ func c06Run(w *sup.W, ops []rx.Op, bind map[string]rx.Val) {
 	}
 	allowed := rx.Eval(ops, bind)
 	tab := syms.Tab
+	before := c06Operands(expr, values)
 	got, err := expr.Evaluate(values, &tab)
 	syms.Tab = tab
+	// evaluation must not modify its operands: a second evaluation (another rule, another
+	// combination) reads the same literals and bindings
+	if after := c06Operands(expr, values); after != before {
+		w.Class("operand-modified")
+		w.Violate("expr:operand-modified:"+rx.OpsString(opsShape(ops)), rx.OpsString(ops), "operands after evaluation: "+after, "unchanged: "+before)
+		return
+	}
 	human := func() string {
 		s := rx.OpsString(ops)
 		if len(bind) > 0 {
